@@ -211,6 +211,7 @@ func vrtBatchHarness(nocheck bool) {
 	if code < 0 {
 		vrt.Cover("rejected")
 		vrt.Assert("C03.rejected-no-effect", vrt.SameStore(snap0, snap1))
+		vrt.Assert("C17.rejected-status-means-the-batch-changed-nothing", vrt.SameStore(snap0, snap1))
 		vrt.Assert("C17.rejected-not-marked-executed", executed == 0)
 		return
 	}
